@@ -357,3 +357,10 @@ class _SubK:
 SUBCHECKS = {"algebra": _SubA(), "Q": _SubQ(), "kinematic": _SubK(), "pyapi": _SubP()}
 REPLAY = {"algebra": lambda c: explore_algebra(c).fails, "Q": lambda c: explore_Q(c).fails, "kinematic": lambda c: explore_kinematic(c).fails,
           "pyapi": lambda c: explore_pyapi(c).fails}
+
+# results must not depend on which library calls were made earlier in the process (see mc/order.py)
+from .. import order as _order  # noqa: E402
+
+_ORDER = _order.OrderSub("C05", "lie", lambda k: 'jacobian' in k)
+SUBCHECKS["order"] = _ORDER
+REPLAY["order"] = _ORDER.replay
